@@ -69,6 +69,8 @@ def entries(level='quick'):
             Entry('CauchyCDFInverse%s' % shape, 'nonlin', lambda: T.nonlinearities.CauchyCDFInverse(), shape, dom_fwd=(0.01, 0.99), extra={'cls': 'CauchyCDFInverse'}),
             Entry('Affine%s' % shape, 'nonlin', lambda: T.PointwiseAffineTransform(shift=0.75, scale=-2.0), shape, extra={'cls': 'Affine'}),
             Entry('Identity%s' % shape, 'nonlin', lambda: T.IdentityTransform(), shape, extra={'cls': 'Identity'}),
+            # integer constructor arguments (`scale=2`)
+            Entry('AffineInt%s' % shape, 'nonlin', lambda: T.PointwiseAffineTransform(shift=-1, scale=2), shape, extra={'cls': 'Affine'}),
         ]
     # ---- PointwiseAffineTransform with tensor-valued scale / shift (broadcast over the event shape)
     def aff(scale_shape, shift_shape):
@@ -82,6 +84,8 @@ def entries(level='quick'):
     for ev, ssc, ssh in (([3], [3], [3]), ([2, 2, 3], [2, 1, 1], [3]), ([2, 2, 3], [2, 2, 3], [1]), ([2, 2, 3], [3], [2, 1, 1]),
                          ([4], [1], [4]), ([2, 3], [3], [2, 1])):
         E.append(Entry('AffineT%s/s%s/b%s' % (ev, ssc, ssh), 'affine_t', aff(ssc, ssh), ev, extra={'sscale': ssc, 'sshift': ssh}))
+    E.append(Entry('AffineT[3]/int', 'affine_t', lambda: T.PointwiseAffineTransform(shift=torch.tensor([1, 0, -2]), scale=torch.tensor([2, 3, -4])), [3],
+                   extra={'sscale': [3], 'sshift': [3]}))
     # ---- Piecewise*CDF
     cdfs = {'lin': T.PiecewiseLinearCDF, 'quad': T.PiecewiseQuadraticCDF, 'cubic': T.PiecewiseCubicCDF, 'rq': T.PiecewiseRationalQuadraticCDF}
     for fam, cls in cdfs.items():
